@@ -9,6 +9,7 @@ import (
 	"net/http"
 	"net/http/httptest"
 	"net/url"
+	"runtime"
 	"sort"
 	"strings"
 	"sync"
@@ -268,6 +269,190 @@ func c19DNS(c *mon.Ctx, r *gen.Rand) {
 	c.Floor("dns_histories_linearizable", 20)
 	c.Floor("dns_histories_with_overlapping_misses_on_one_host", 10)
 	c.Floor("dns_hits", 100)
+}
+
+// ---- (1b) DNS cache: DialContext, including the path that drops a cached entry none of whose addresses connect ----
+
+type dialResolver struct {
+	mu    sync.Mutex
+	calls map[string]int
+	// script[host][min(call, len-1)] = addresses answered on that call
+	script   map[string][][]net.IP
+	answered map[string]map[string]bool
+}
+
+func (d *dialResolver) LookupIPAddr(ctx context.Context, host string) ([]net.IPAddr, error) {
+	d.mu.Lock()
+	defer d.mu.Unlock()
+	sc := d.script[host]
+	if len(sc) == 0 {
+		return nil, errors.New("no such host")
+	}
+	i := d.calls[host]
+	d.calls[host]++
+	if i >= len(sc) {
+		i = len(sc) - 1
+	}
+	out := []net.IPAddr{}
+	for _, ip := range sc[i] {
+		out = append(out, net.IPAddr{IP: ip})
+		d.answered[host][ip.String()] = true
+	}
+	return out, nil
+}
+
+// goroutinesInDNSCache reports how many goroutines have a DNSCache frame on their stack and how many of those are
+// parked on a mutex, with the stacks of the latter.
+func goroutinesInDNSCache() (inCache, parkedOnMutex int, stacks string) {
+	buf := make([]byte, 1<<22)
+	buf = buf[:runtime.Stack(buf, true)]
+	for _, g := range strings.Split(string(buf), "\n\n") {
+		if !strings.Contains(g, "fclient.(*DNSCache)") {
+			continue
+		}
+		inCache++
+		head, _, _ := strings.Cut(g, "\n")
+		if strings.Contains(head, "sync.Mutex.Lock") || strings.Contains(head, "semacquire") {
+			parkedOnMutex++
+			stacks += g + "\n\n"
+		}
+	}
+	return
+}
+
+func c19DNSDial(c *mon.Ctx, r *gen.Rand) {
+	nHist := c.Scale(16, 800)
+	for h := 0; h < nHist; h++ {
+		hr := r.Fork("dial")
+		k := gen.Pick(hr, []int{1, 2, 4, 8})
+		nHosts := hr.Range(1, 4)
+		opsPer := hr.Range(2, 6)
+		shapes := make([]string, nHosts)
+		for i := range shapes {
+			shapes[i] = gen.Pick(hr, []string{"live", "dead-then-live", "dead-then-live", "dead+live", "always-dead", "live-then-dead-then-live"})
+		}
+		c.Case("dns-dial", map[string]any{"goroutines": k, "hosts": shapes, "dials_per_goroutine": opsPer}, func() {
+			res := &dialResolver{calls: map[string]int{}, script: map[string][][]net.IP{}, answered: map[string]map[string]bool{}}
+			ports := map[string]string{}
+			liveIP := map[string]string{}
+			var listeners []net.Listener
+			defer func() {
+				for _, l := range listeners {
+					l.Close()
+				}
+			}()
+			for i, shape := range shapes {
+				host := fmt.Sprintf("dial%d.example", i)
+				live := net.IPv4(127, 0, byte(10+i), 1)
+				dead := net.IPv4(127, 0, byte(10+i), 2)
+				ln, err := net.Listen("tcp", live.String()+":0")
+				if err != nil {
+					c.Note("cannot listen on %s: %v; dial workload skipped", live, err)
+					return
+				}
+				listeners = append(listeners, ln)
+				go func() {
+					for {
+						conn, err := ln.Accept()
+						if err != nil {
+							return
+						}
+						conn.Close()
+					}
+				}()
+				_, port, _ := net.SplitHostPort(ln.Addr().String())
+				ports[host], liveIP[host] = port, live.String()
+				res.answered[host] = map[string]bool{}
+				switch shape {
+				case "live":
+					res.script[host] = [][]net.IP{{live}}
+				case "dead-then-live":
+					res.script[host] = [][]net.IP{{dead}, {live}}
+				case "dead+live":
+					res.script[host] = [][]net.IP{{dead, live}}
+				case "always-dead":
+					res.script[host] = [][]net.IP{{dead}}
+				case "live-then-dead-then-live":
+					res.script[host] = [][]net.IP{{live}, {dead}, {live}}
+				}
+			}
+			cache := fclient.NewDNSCache(nHosts+1, 30*time.Second, []string{"127.0.0.0/8"}, nil)
+			cache.VerifSetResolver(res)
+			var wg sync.WaitGroup
+			var fmu sync.Mutex
+			var failures []string
+			var connected, refused atomic.Int64
+			pr := hr.Fork("picks")
+			picks := make([][]int, k)
+			for g := range picks {
+				for o := 0; o < opsPer; o++ {
+					picks[g] = append(picks[g], pr.Intn(nHosts))
+				}
+			}
+			for g := 0; g < k; g++ {
+				wg.Add(1)
+				go func(g int) {
+					defer wg.Done()
+					for _, hi := range picks[g] {
+						host := fmt.Sprintf("dial%d.example", hi)
+						ctx, cancel := context.WithTimeout(context.Background(), 10*time.Second)
+						conn, err := cache.DialContext(ctx, "tcp", net.JoinHostPort(host, ports[host]))
+						cancel()
+						if err != nil {
+							refused.Add(1)
+							continue
+						}
+						connected.Add(1)
+						ip, _, _ := net.SplitHostPort(conn.RemoteAddr().String())
+						conn.Close()
+						if ip != liveIP[host] {
+							fmu.Lock()
+							failures = append(failures, fmt.Sprintf("a dial of %s connected to %s, an address of another host", host, ip))
+							fmu.Unlock()
+						}
+					}
+				}(g)
+			}
+			done := make(chan struct{})
+			go func() { wg.Wait(); close(done) }()
+			select {
+			case <-done:
+			case <-time.After(40 * time.Second):
+				// every dial is bounded by its 10 s context, so whoever is still inside the cache now is not waiting for the
+				// network. A goroutine parked on the cache mutex with nobody else running inside the cache can never be released.
+				in, parked, stacks := goroutinesInDNSCache()
+				if parked > 0 && parked == in {
+					c.Failf("dns:dial-deadlock", "%d goroutine(s) are parked on the DNS cache mutex and no goroutine is running inside the cache to release it (40 s after the last dial could have timed out)\n%s", parked, stacks)
+				} else {
+					c.Count("dns_dial_histories_unfinished")
+					c.Note("dial history unfinished after 40 s without a provable deadlock (%d in cache, %d parked)", in, parked)
+				}
+				return
+			}
+			c.Count("dns_dial_histories")
+			c.CountN("dns_dials_connected", connected.Load())
+			c.CountN("dns_dials_failed", refused.Load())
+			c.Nontrivial(fmt.Sprintf("dial|%d|%v|%v", k, shapes, picks))
+			for _, f := range failures {
+				c.Failf("dns:dial-other-hosts-address", "%s", f)
+			}
+			if n := cache.VerifLen(); n > nHosts+1 {
+				c.Failf("dns:size-bound-exceeded", "cache of size %d holds %d entries after the dial history", nHosts+1, n)
+			}
+			// the cache must still be usable by a later caller (a leaked lock shows here too)
+			fin := make(chan struct{})
+			go func() { cache.VerifLen(); cache.VerifLookup(context.Background(), "dial0.example"); close(fin) }()
+			select {
+			case <-fin:
+			case <-time.After(20 * time.Second):
+				in, parked, stacks := goroutinesInDNSCache()
+				if parked > 0 && parked == in {
+					c.Failf("dns:dial-deadlock", "after the dial history a lookup parks on the cache mutex forever: the mutex was left locked\n%s", stacks)
+				}
+			}
+		})
+	}
+	c.Floor("dns_dial_histories", 4)
 }
 
 func describeOps(ops []porcupine.Operation) string {
@@ -580,46 +765,80 @@ func c19SharedEvent(c *mon.Ctx, r *gen.Rand) {
 			}
 			w := newWorld(r.Fork("w"), ver, "plain", 1)
 			base := w.members[[2]string{authUsers[2], "join"}]
-			c.Case("shared-event:"+string(ver), map[string]any{"version": ver}, func() {
-				impl := gmsl.MustGetRoomVersion(ver)
-				ref1, err := impl.NewEventFromUntrustedJSON(base.JSON())
-				if err != nil {
-					c.Failf("shared-event:parse", "%v", err)
-					return
-				}
-				want, _ := tupleOf(ref1)
-				shared, _ := impl.NewEventFromUntrustedJSON(base.JSON()) // fresh: nothing cached yet
-				k := 8
-				var wg sync.WaitGroup
-				startCh := make(chan struct{})
-				diffs := make([]string, k)
-				for g := 0; g < k; g++ {
-					wg.Add(1)
-					go func(g int) {
-						defer wg.Done()
-						<-startCh
-						got, site := tupleOf(shared)
-						if site != "" {
-							diffs[g] = "panic: " + site
+			impl := gmsl.MustGetRoomVersion(ver)
+			// the forms an event can reach a shared holder in: as built; with a content that fails the hash (replaced
+			// by its redacted form at parse); already redacted on arrival (hash fails, redaction changes nothing)
+			forms := map[string][]byte{"as-built": base.JSON()}
+			if rich, err := w.build("m.room.member", strp(authUsers[2]), authUsers[2], ref.O("membership", ref.S("join"), "displayname", ref.S("D"), "extra", ref.O("k", ref.I(1))), nil, ""); err == nil {
+				forms["rich-content"] = rich.JSON()
+				tv := ref.MustParse(rich.JSON())
+				tv.Get("content").Set("displayname", ref.S("tampered"))
+				forms["hash-fails"] = gen.Plain().Bytes(tv)
+				rv := ref.Redact(t.Redaction, ref.MustParse(rich.JSON()))
+				forms["arrives-redacted"] = gen.Plain().Bytes(rv)
+			}
+			formNames := make([]string, 0, len(forms))
+			for f := range forms {
+				formNames = append(formNames, f)
+			}
+			sortStrings(formNames)
+			parsers := map[string]func([]byte) (gmsl.PDU, error){
+				"untrusted":        impl.NewEventFromUntrustedJSON,
+				"trusted":          func(b []byte) (gmsl.PDU, error) { return impl.NewEventFromTrustedJSON(b, false) },
+				"trusted-redacted": func(b []byte) (gmsl.PDU, error) { return impl.NewEventFromTrustedJSON(b, true) },
+			}
+			for _, form := range formNames {
+				text := forms[form]
+				for _, pname := range []string{"untrusted", "trusted", "trusted-redacted"} {
+					parse := parsers[pname]
+					c.Case("shared-event:"+string(ver)+":"+form+":"+pname, map[string]any{"version": ver, "form": form, "parser": pname, "event": string(text)}, func() {
+						ref1, err := parse(text)
+						if err != nil {
+							c.Count("shared_event_form_refused")
 							return
 						}
-						if d := want.diff(got); d != "" {
-							diffs[g] = d
+						want, _ := tupleOf(ref1)
+						wantVer := ref1.Version()
+						shared, _ := parse(text) // fresh: nothing cached yet
+						k := 8
+						var wg sync.WaitGroup
+						startCh := make(chan struct{})
+						diffs := make([]string, k)
+						for g := 0; g < k; g++ {
+							wg.Add(1)
+							go func(g int) {
+								defer wg.Done()
+								<-startCh
+								got, site := tupleOf(shared)
+								if site != "" {
+									diffs[g] = "panic: " + site
+									return
+								}
+								if d := want.diff(got); d != "" {
+									diffs[g] = d
+								}
+								_ = shared.JSON()
+								_, _ = shared.Membership()
+								_ = shared.Unsigned()
+								_ = shared.Redacts()
+								_, _ = shared.ToHeaderedJSON()
+								if shared.Version() != wantVer {
+									diffs[g] = "version"
+								}
+							}(g)
 						}
-						_ = shared.JSON()
-						_, _ = shared.Membership()
-					}(g)
+						close(startCh)
+						wg.Wait()
+						c.Count("shared_event_runs")
+						c.Nontrivial(fmt.Sprintf("se|%s|%s|%s|%d", ver, form, pname, round))
+						for g, d := range diffs {
+							if d != "" {
+								c.Failf("shared-event:accessor-differs", "goroutine %d read a different %s from the shared event than a single-threaded read", g, d)
+							}
+						}
+					})
 				}
-				close(startCh)
-				wg.Wait()
-				c.Count("shared_event_runs")
-				c.Nontrivial(fmt.Sprintf("se|%s|%d", ver, round))
-				for g, d := range diffs {
-					if d != "" {
-						c.Failf("shared-event:accessor-differs", "goroutine %d read a different %s from the shared event than a single-threaded read", g, d)
-					}
-				}
-			})
+			}
 		}
 	}
 	c.Floor("shared_event_runs", 10)
@@ -628,6 +847,7 @@ func c19SharedEvent(c *mon.Ctx, r *gen.Rand) {
 func runC19(c *mon.Ctx) {
 	r := c.Rand("c19")
 	c19DNS(c, r.Fork("dns"))
+	c19DNSDial(c, r.Fork("dns-dial"))
 	c19KeyRing(c, r.Fork("keyring"))
 	c19Transports(c, r.Fork("transports"))
 	c19SharedEvent(c, r.Fork("event"))
